@@ -10,7 +10,7 @@
      src/vnacal_new.c  vnacal_new_alloc / vnacal_new_free, vnacal_free.c, vnacal_create.c
 
    The model follows the code with the repairs of /verif/fixes/D08, D11, D23, D37, D42, D43, D44
-   applied (each deviation from the unrepaired code is marked "fix Dnn" below; [step_asis] keeps
+   applied, D17 as well (each deviation from the unrepaired code is marked "fix Dnn" below; [step_asis] keeps
    the unrepaired variants that are needed for the refutation theorems).
 
    Abstractions (see docs/design_C16.md):
@@ -265,8 +265,28 @@ Fixpoint vn_get_param (fuel : nat) (t : ptable) (v : vnew) (h : Z) : ptable * vn
       end
   end.
 
-(* the loop over the cells of the S matrix in _vnacal_new_add_common: parameters registered
-   before a failing cell stay registered (candidate D17, as coded) *)
+(* _vnacal_new_check_parameter (fix D17): the tests of _vnacal_new_get_parameter, in the same
+   order, without adding anything *)
+Fixpoint vn_check_param (fuel : nat) (t : ptable) (v : vnew) (h : Z) : bool :=
+  match fuel with
+  | O => false
+  | S f =>
+    if ((0 <=? h)%Z && in_nat (Z.to_nat h) (vn_params v))%bool then true
+    else
+      match get_param t h with
+      | None => false
+      | Some (n, p) =>
+        if (vn_fvalid v && negb (range_ok (frange (S (length (pt_slots t))) t n) (vn_f0 v) (vn_fmax v)))%bool
+        then false
+        else match p_kind p with
+             | KCorrelated o _ => vn_check_param f t v (Z.of_nat o)
+             | _ => true
+             end
+      end
+  end.
+
+(* the loop over the cells of the S matrix in _vnacal_new_add_common, run after every cell has
+   passed vn_check_param (fix D17: a refused standard registers nothing) *)
 Fixpoint vn_get_params (t : ptable) (v : vnew) (hs : list Z) : ptable * vnew * bool :=
   match hs with
   | [] => (t, v, true)
@@ -540,6 +560,8 @@ Definition step_gen (asis : bool) (s : state) (o : op) : state * outcome :=
     match get_new s id with
     | None => (s, mkOut RNoSuch ENone 0)
     | Some v =>
+      if negb (forallb (vn_check_param (S (length (pt_slots t))) t v) hs) then (s, fail_usage)
+      else
       match vn_get_params t v hs with
       | (t1, v1, true) =>
         let m := mkMeas (map Z.to_nat hs) ms in
